@@ -342,3 +342,46 @@ package bitmask
 //@   loop 3 invariant wf(res) && len(res) <= rangeindex + 1
 //@   loop 3 invariant implies(rangeindex >= 0, len(res) > 0 && res[len(res)-1].max == new[rangeindex].max)
 //@   loop 3 decreases len(new) - rangeindex
+
+// Extract: remove bit `bit`, every higher bit moves down by one; the result is the old value of the bit
+//@ func (*ConnectedBitmask).Extract
+//@   requires wf(bm.entries)
+//@   modifies bm.entries
+//@   ensures wf(bm.entries)
+//@   ensures result == old(mem(bm.entries, bit))
+//@   ensures forall(uint, x, 0, 4611686018427387904, mem(bm.entries, x) == ite(x < bit, old(mem(bm.entries, x)), old(mem(bm.entries, x+1))))
+//@   loop 1 invariant -1 <= i && i < len(bm.entries) && len(bm.entries) == old(len(bm.entries)) && same_slice(bm.entries, old(bm.entries))
+//@   loop 1 invariant forall(k, 0, i+1, bm.entries[k] == old(bm.entries[k]))
+//@   loop 1 invariant forall(k, i+1, len(bm.entries), bm.entries[k].min == old(bm.entries[k].min) - 1 && bm.entries[k].max == old(bm.entries[k].max) - 1 && bm.entries[k].min > bit)
+//@   loop 1 decreases i + 1
+
+// Inject: every bit at or above `bit` moves up by one, bit `bit` becomes value
+//@ func (*ConnectedBitmask).Inject
+//@   requires wf(bm.entries) && bit < 4611686018427387903 && forall(k, 0, len(bm.entries), bm.entries[k].max < 4611686018427387903)
+//@   modifies bm.entries
+//@   ensures wf(bm.entries)
+//@   ensures forall(uint, x, 0, 4611686018427387904, mem(bm.entries, x) == ite(x < bit, old(mem(bm.entries, x)), ite(x == bit, value, old(mem(bm.entries, x-1)))))
+//@   loop 1 invariant -1 <= i && i < len(bm.entries) && len(bm.entries) == old(len(bm.entries)) && same_slice(bm.entries, old(bm.entries))
+//@   loop 1 invariant forall(k, 0, i+1, bm.entries[k] == old(bm.entries[k]))
+//@   loop 1 invariant forall(k, i+1, len(bm.entries), old(bm.entries[k].max) >= bit && bm.entries[k].max == old(bm.entries[k].max) + 1 && bm.entries[k].min == ite(old(bm.entries[k].min) >= bit, old(bm.entries[k].min) + 1, old(bm.entries[k].min)))
+//@   loop 1 decreases i + 1
+//@   assert before call (*ConnectedBitmask).Set#1: shifted: forall(uint, x, 0, 4611686018427387904, implies(x != bit, mem(bm.entries, x) == ite(x < bit, old(mem(bm.entries, x)), old(mem(bm.entries, x-1)))))
+//@   assert before call (*ConnectedBitmask).Unset#1: shifted: forall(uint, x, 0, 4611686018427387904, implies(x != bit, mem(bm.entries, x) == ite(x < bit, old(mem(bm.entries, x)), old(mem(bm.entries, x-1)))))
+
+// in-place forms of the set algebra keep the canonical form (by the contracts of the Copy forms)
+//@ func (*ConnectedBitmask).Or
+//@   requires wf(bm.entries) && wf(other.entries)
+//@   modifies bm.entries
+//@   ensures wf(bm.entries)
+//@ func (*ConnectedBitmask).And
+//@   requires wf(bm.entries) && wf(other.entries)
+//@   modifies bm.entries
+//@   ensures wf(bm.entries)
+//@ func (*ConnectedBitmask).Xor
+//@   requires wf(bm.entries) && wf(other.entries)
+//@   modifies bm.entries
+//@   ensures wf(bm.entries)
+//@ func (*ConnectedBitmask).Sub
+//@   requires wf(bm.entries) && wf(other.entries)
+//@   modifies bm.entries
+//@   ensures wf(bm.entries)
